@@ -602,6 +602,32 @@ Section Selectors.
     map (fun m => selector_of_str (spec_sig_str m)) (contract_methods registered).
 End Selectors.
 
+(* Router.add_method_handler as a state transition.  An attempt is REJECTED (TealInputError, nothing recorded —
+   neither in the method table nor in the contract) when the handler is not an ABIReturnSubroutine, when its
+   MethodConfig allows no call at all, when the same signature is already registered, or when its selector
+   collides with a registered one; otherwise the registration is appended. *)
+Inductive attempt : Type :=
+| ARegister (r : registration) (never : bool)    (* never = method_config.is_never() *)
+| ANotABI.
+
+Section Attempts.
+  Variable hash : string -> bytes.
+  Definition reg_selector (r : registration) : bytes := selector_of_str hash (dispatched_sig_str r).
+  Definition accepts (st : list registration) (a : attempt) : option registration :=
+    match a with
+    | ANotABI => None
+    | ARegister r never =>
+        if never then None
+        else if existsb (fun r' => String.eqb (dispatched_sig_str r') (dispatched_sig_str r)) st then None
+        else if existsb (fun r' => bytes_eqb (reg_selector r') (reg_selector r)) st then None
+        else Some r
+    end.
+  Definition attempt_step (st : list registration) (a : attempt) : list registration :=
+    match accepts st a with Some r => st ++ [r] | None => st end.
+  Definition run_attempts (st : list registration) (l : list attempt) : list registration :=
+    fold_left attempt_step l st.
+End Attempts.
+
 (* ------------------------------------------------------------------------------------------ *)
 (* SPEC: what "parameter bound to what the caller passed" means (used by the theorem statements) *)
 (* ------------------------------------------------------------------------------------------ *)
